@@ -15,11 +15,13 @@ import (
 // buffer position pos: a pending wrap is resolved to the start of the next row
 // (the cell after a glyph in the last column is the first cell of the next row).
 func reference(w, h int, prompt string, text []rune, pos int) ([]string, [2]int) {
+	// a tab is displayed as five blanks (strutil.FormatTabs): what the user sees is the text so expanded
+	shown := func(rs []rune) string { return strings.ReplaceAll(string(rs), "\t", "     ") }
 	t := vt.New(w, h, false)
-	t.Write([]byte(prompt + string(text)))
+	t.Write([]byte(prompt + shown(text)))
 	screen := t.Screen()
 	c := vt.New(w, h, false)
-	c.Write([]byte(prompt + string(text[:pos])))
+	c.Write([]byte(prompt + shown(text[:pos])))
 	y, x := c.Y, c.X
 	if c.Wrap {
 		y, x = y+1, 0
@@ -29,13 +31,14 @@ func reference(w, h int, prompt string, text []rune, pos int) ([]string, [2]int)
 	return screen, [2]int{y, x}
 }
 
-func cellsOf(s string) int { return uniseg.StringWidth(s) }
+func cellsOf(s string) int { return uniseg.StringWidth(strings.ReplaceAll(s, "\t", "     ")) }
 
 var c04Alphabets = map[string][]string{
 	"ascii":     {"a", "b", "c", "x", "-", ".", "/", "Q"},
 	"wide":      {"中", "文", "字", "a", "b"},
 	"combining": {"é", "a", "ö", "b"},
 	"latin":     {"é", "ü", "a", "ß", "b"},
+	"tabs":      {"\t", "a", "b", "-", "\t", "c"},
 }
 
 func randCells(r *rand.Rand, class string, cells int) string {
@@ -53,7 +56,7 @@ func randCells(r *rand.Rand, class string, cells int) string {
 }
 
 func init() {
-	classes := []string{"ascii", "ascii", "wide", "combining", "latin"}
+	classes := []string{"ascii", "ascii", "wide", "combining", "latin", "tabs"}
 	register(&prop{id: "C04",
 		gen: func(r *rand.Rand) Case {
 			w := 8 + r.Intn(25)
